@@ -88,3 +88,7 @@ pub enum LeapStatus {
     /// A second needs to be inserted into the last minute of the month.
     Leap61,
 }
+
+#[cfg(feature = "pendulum_project_ntpd_rs_verif")]
+#[path = "/verif/hooks/statime-base/clock.rs"]
+pub mod vh_clock;
